@@ -63,6 +63,9 @@ pub enum COp {
     Status { to: St, late: bool },
     /// Client event; `sys`: emitted from a system in `Update` instead of between frames.
     EmitC1 { sys: bool },
+    /// Client event; the transport does not get to flush the client's outgoing queue in this
+    /// frame (the link is about to go down): the message stays queued inside `RepliconClient`.
+    EmitC1Unflushed,
     EmitCT { target: bool, sys: bool },
     EmitE1 { mode: ModeS, sys: bool },
     EmitT1 { mode: ModeS, sys: bool },
@@ -79,6 +82,7 @@ impl COp {
             COp::StopServer { late } => format!("stop server{}", if *late { " (in PrepareSend)" } else { "" }),
             COp::Status { to, late } => format!("client status -> {to:?}{}", if *late { " (in PrepareSend)" } else { "" }),
             COp::EmitC1 { sys } => format!("emit client event{}", if *sys { " from Update" } else { "" }),
+            COp::EmitC1Unflushed => "emit client event, transport does not flush this frame".into(),
             COp::EmitCT { target, sys } => format!(
                 "emit client trigger{}{}",
                 if *target { " with target" } else { "" },
@@ -164,6 +168,8 @@ struct Emission {
     cfg_running: bool,
     cfg_status: Option<St>,
     settled: bool,
+    /// The transport did not flush the frame in which the event was queued.
+    unflushed: bool,
     /// The configuration (server running, client status) changed in a later frame.
     cfg_changed_later: bool,
     /// Had the remote connection been up at the end of the emission frame?
@@ -173,6 +179,7 @@ struct Emission {
 }
 
 pub struct C13Exec {
+    hold_drain: bool,
     app: App,
     round: usize,
     next_n: u8,
@@ -221,12 +228,14 @@ impl C13Cell {
                     return false;
                 }
                 match to {
-                    St::Connecting => cur == St::Disconnected,
+                    // (from `Connected` too: a transport that reconnects on its own)
+                    St::Connecting => cur != St::Connecting,
                     St::Connected => cur != St::Connected,
                     St::Disconnected => cur != St::Disconnected,
                 }
             }
             COp::EmitC1 { .. } | COp::EmitCT { .. } => true,
+            COp::EmitC1Unflushed => status == Some(St::Connected) && !pending_status,
             COp::EmitE1 { mode, .. } | COp::EmitT1 { mode, .. } | COp::EmitEI { mode, .. } | COp::EmitTI { mode, .. } => match mode {
                 ModeS::ExceptRemote | ModeS::DirectRemote => running && x.remote.is_some(),
                 _ => true,
@@ -276,7 +285,8 @@ impl C13Cell {
         // wire
         let mut wire: Vec<(u8, u8)> = Vec::new();
         let connected = Self::status(x) == Some(St::Connected);
-        if let Some(mut client) = x.app.world_mut().get_resource_mut::<RepliconClient>() {
+        let hold = std::mem::take(&mut x.hold_drain);
+        if let Some(mut client) = x.app.world_mut().get_resource_mut::<RepliconClient>().filter(|_| !hold) {
             let sent: Vec<_> = client.drain_sent().collect();
             for (_ch, bytes) in sent {
                 bytes[..].hash(&mut x.trace);
@@ -379,6 +389,11 @@ impl C13Cell {
                             .feat("kind:client"));
                     }
                 } else if em.cfg_status == Some(St::Connected) {
+                    // A message that the transport never flushed is lost with the connection
+                    // (only "never twice, never without a connection" applies to it).
+                    if em.unflushed && (l, w) == (0, 0) {
+                        continue;
+                    }
                     // A reference the client cannot translate means the event is not sent at all.
                     let want = if em.unmapped_target { (0, 0) } else { (0, 1) };
                     if (l, w) != want {
@@ -516,6 +531,7 @@ impl Scenario for C13Cell {
         app.cleanup();
         let target = app.world_mut().spawn_empty().id();
         let mut x = C13Exec {
+            hold_drain: false,
             app,
             round: 0,
             next_n: 1,
@@ -582,6 +598,7 @@ impl Scenario for C13Cell {
                 cfg_running: false,
                 cfg_status: None,
                 settled: false,
+                unflushed: false,
                 cfg_changed_later: false,
                 remote_up: false,
                 unmapped_target: false,
@@ -619,6 +636,12 @@ impl Scenario for C13Cell {
                 } else {
                     x.app.world_mut().resource_mut::<RepliconClient>().set_status(s);
                 }
+            }
+            COp::EmitC1Unflushed => {
+                let s = new_emission(x, CK::C1.tag(), true, (false, false));
+                x.emissions.last_mut().unwrap().unflushed = true;
+                x.hold_drain = true;
+                x.app.world_mut().send_event(C1(s));
             }
             COp::EmitC1 { sys } => {
                 let s = new_emission(x, CK::C1.tag(), true, (false, false));
@@ -717,6 +740,7 @@ pub fn cells(tier: Tier) -> Vec<CellPlan> {
             COp::Status { to: St::Disconnected, late: !late },
             COp::EmitC1 { sys: false },
             COp::EmitC1 { sys: true },
+            COp::EmitC1Unflushed,
             COp::EmitCT { target: false, sys: false },
             COp::EmitCT { target: true, sys: true },
             COp::EmitE1 { mode: ModeS::Broadcast, sys: false },
